@@ -1,6 +1,6 @@
 /- C36 driver.
    `C36 chain <pa> <pb> [op,…]`, `C36 multi [st…] [children…] [op,…]`, `C36 wait [st…] [args…] [op,…]`,
-   `C36 timeout <pa> [op,…]` (Model) and `C36 spec-chain|spec-multi|spec-wait|spec-timeout …` (Spec).
+   `C36 timeout <pa> [op,…]`, `C36 chain-cf …` / `C36 timeout-cf …` (concurrent.futures source) (Model) and `C36 spec-chain|spec-multi|spec-wait|spec-timeout …` (Spec).
    Outcomes: `[r,v]` result, `[e,code]` exception, `c` cancelled; `p` pending. -/
 import TornadoModel.Base.Wire
 import TornadoModel.C36.Spec
@@ -83,6 +83,17 @@ def handle (toks : List String) : String :=
       | some a, some b, some ops =>
         ok [.list ((Chain.trace (Chain.init a b) ops).map (fun (x, y) => .list [encF x, encF y]))]
       | _, _, _ => err "bad-arg"
+    | "chain-cf", [pa, pb, ops] =>
+      match decF pa, decF pb, decList decChainOp ops with
+      | some a, some b, some ops =>
+        ok [.list ((Chain.trace (Chain.initCF a b) ops).map (fun (x, y) => .list [encF x, encF y]))]
+      | _, _, _ => err "bad-arg"
+    | "timeout-cf", [pa, ops] =>
+      match decF pa, decList decTimeoutOp ops with
+      | some a, some ops =>
+        ok [.list ((Timeout.trace (Timeout.initCF a) ops).map
+              (fun (x, r, t, l) => .list [encF x, encF r, encTimer t, .int l]))]
+      | _, _ => err "bad-arg"
     | "multi", [st, ch, ops] =>
       match decList decF st, decList V.nat? ch, decList decMultiOp ops with
       | some st, some ch, some ops =>
